@@ -966,7 +966,9 @@ impl Shard {
         if let Some(arr) = req.get_mut("calls").and_then(|v| v.as_array_mut()) {
             for c in arr.iter_mut() {
                 if let Some(p) = c.get("path").and_then(|v| v.as_str()).map(|x| subst(x, wpid)) {
-                    c["path"] = json!(p);
+                    // "@HOSTPARENT": the host path of the root's parent, spelled as a relative path (see tree.rs, kind "mirror")
+                    let hp = scratch.dir.to_string_lossy().trim_start_matches('/').to_string();
+                    c["path"] = json!(p.replace("@HOSTPARENT", &hp));
                 }
             }
         }
